@@ -8,6 +8,7 @@ import (
 	"fmt"
 	"io"
 	"math/big"
+	"runtime"
 	"strconv"
 	"sync"
 	"time"
@@ -37,7 +38,9 @@ func (prop) Rule() string {
 	return "cases: Accounting(tolerance 1000, threshold 100) over a scripted settlement layer; 8-50 ops for 3 peers: credit (amounts dense around the " +
 		"threshold, settlement put ok/failing), notify (amounts below / equal / above the outstanding balance, zero), reserve (available balance around " +
 		"unpaid+amount, or failing), debit (unsettled served traffic around the tolerance 999/1000/1001, put ok/failing), unpaid (exact read-back by " +
-		"bisection through Reserve), stress (k concurrent Credit+Reserve goroutines); first contact of a peer takes its opening balance from the scripted " +
+		"bisection through Reserve), stress (k concurrent Credit+Reserve goroutines), first (2-4 goroutines Credit/Reserve/NotifyPayment a peer that has no " +
+		"record yet; the scripted RetrieveTraffic calls are held until every goroutine is inside one, waits for the peer-map mutex or has returned — so first " +
+		"touches that CAN overlap DO overlap; amounts dense around the threshold); first contact of a peer takes its opening balance from the scripted " +
 		"RetrieveTraffic (or fails). Non-trivial: >=1 credit reaching the threshold, >=1 truncating or exact payment, >=1 debit at the tolerance boundary."
 }
 
@@ -50,12 +53,15 @@ func (prop) Gen(r *core.Rand, tier string) []core.Case {
 		{ID: "fix-threshold-boundary", NT: true, Ops: []string{"credit 0 99 0 0", "credit 0 1 0 0", "unpaid 0 0", "notify 0 100 0", "unpaid 0 0", "credit 0 100 0 0"}},
 		{ID: "fix-overpay-truncates", NT: true, Ops: []string{"credit 0 40 5 0", "notify 0 50 0", "unpaid 0 0", "notify 0 1 0", "credit 0 7 0 0", "unpaid 0 0"}},
 		{ID: "fix-debit-tolerance", NT: true, Ops: []string{"debit 0 10 0 999 0", "debit 0 10 0 1000 0", "debit 0 10 0 1001 0", "debit 0 10 0 e 0", "debit 1 10 e 5 0"}},
+		{ID: "fix-concurrent-first-credits", NT: true, Ops: []string{"first 0 0 2 c 100 c 50", "unpaid 0 0", "credit 0 1 0 0", "unpaid 0 0"}},
+		{ID: "fix-concurrent-first-mixed", NT: true, Ops: []string{"first 1 60 3 c 30 n 20 r 5", "unpaid 1 0", "first 2 0 3 c 99 n 0 c 1", "unpaid 2 0", "first 2 0 2 c 1 c 1", "first 3 e 2 c 5 c 6", "unpaid 3 7"}},
 		{ID: "fix-concurrent-reserve-credit", NT: true, Ops: []string{"credit 0 10 0 0", "stress 0 16 9 0", "unpaid 0 0", "reserve 0 5 0 159", "reserve 0 5 0 158"}},
 	}
 	for i := 0; i < n; i++ {
 		c := core.Case{ID: fmt.Sprintf("g%d", i)}
 		est := map[int]int{} // generator's estimate of unpaid, to aim at boundaries
 		thr, trunc, tol := 0, 0, 0
+		firstUsed := map[int]bool{}
 		nops := r.Range(8, 50)
 		for k := 0; k < nops; k++ {
 			p := r.Intn(3)
@@ -120,8 +126,50 @@ func (prop) Gen(r *core.Rand, tier string) []core.Case {
 				if tt == "999" || tt == "1000" {
 					tol++
 				}
-			case 13:
-				if r.Chance(40) {
+			case 13, 14:
+				if x13 := r.Intn(10); x13 < 5 {
+					// concurrent first touch of a peer without a record (3..7 are never used otherwise)
+					fp := r.Pick([]int{3, 4, 5, 6, 7, p})
+					if _, k := est[fp]; k || firstUsed[fp] {
+						c.Ops = append(c.Ops, fmt.Sprintf("unpaid %d %s", p, rt))
+						break
+					}
+					firstUsed[fp] = true
+					ort := r.Pick([]int{0, 0, 0, 5, 60, 99, 100})
+					kk := r.Range(2, 4)
+					l, sumC, sumN := "", 0, 0
+					for j := 0; j < kk; j++ {
+						switch y := r.Intn(10); {
+						case y < 6:
+							a := r.Pick([]int{1, 30, 50, 99, 100, threshold - ort - sumC, threshold - ort - sumC - 1, r.Range(0, 120)})
+							if a < 0 {
+								a = 1
+							}
+							sumC += a
+							l += fmt.Sprintf(" c %d", a)
+						case y < 8:
+							l += fmt.Sprintf(" r %d", r.Range(0, 40))
+						default:
+							a := 0
+							if ort-sumN > 0 && r.Chance(60) {
+								a = r.Range(0, ort-sumN)
+							}
+							sumN += a
+							l += fmt.Sprintf(" n %d", a)
+						}
+					}
+					ors := strconv.Itoa(ort)
+					if r.Chance(6) {
+						ors = "e"
+					}
+					c.Ops = append(c.Ops, fmt.Sprintf("first %d %s %d%s", fp, ors, kk, l), fmt.Sprintf("unpaid %d 0", fp))
+					if ors != "e" {
+						est[fp] = ort + sumC - sumN
+						if est[fp] >= threshold && sumC > 0 {
+							thr++
+						}
+					}
+				} else if x13 < 8 {
 					c.Ops = append(c.Ops, fmt.Sprintf("stress %d %d %d %s", p, r.Range(2, 12), r.Range(1, 40), rt))
 					est[p] += 0 // estimate no longer exact; fine
 				} else {
@@ -253,6 +301,179 @@ func (rn *runner) checkUnpaid(ctx *core.Ctx, p int, what string) {
 	}
 }
 
+type firstItem struct {
+	kind string
+	amt  uint64
+	gid  string
+	done bool
+	err  error
+}
+
+// first <p> <rt> <k> (<c|r|n> <amt>)*k : k goroutines touch peer p, which has no accountingPeer
+// record yet, at the same time.  RetrieveTraffic calls of the scripted settlement layer are held; the
+// runner lets them go whenever every goroutine is held there, waits for the peer-map mutex inside
+// getAccountingPeer, or has returned.  rt >= sum of the payments is required (otherwise the outcome
+// would depend on the order: NotifyPayment truncates at zero).
+func (rn *runner) first(ctx *core.Ctx, op []string, p int, peer boson.Address) string {
+	rt, ok1 := parseOI(op[2])
+	k64, errk := strconv.ParseUint(op[3], 10, 8)
+	k := int(k64)
+	if !ok1 || errk != nil || k < 1 || k > 4 || len(op) != 4+2*k || (rt != nil && rt.Sign() < 0) {
+		return "bad-op"
+	}
+	items := make([]*firstItem, k)
+	sumC, sumN := new(big.Int), new(big.Int)
+	credits := 0
+	for j := 0; j < k; j++ {
+		kind := op[4+2*j]
+		amt, err := strconv.ParseUint(op[5+2*j], 10, 64)
+		if err != nil || (kind != "c" && kind != "r" && kind != "n") {
+			return "bad-op"
+		}
+		switch kind {
+		case "c":
+			sumC.Add(sumC, new(big.Int).SetUint64(amt))
+			credits++
+		case "n":
+			sumN.Add(sumN, new(big.Int).SetUint64(amt))
+		}
+		items[j] = &firstItem{kind: kind, amt: amt}
+	}
+	if rt != nil && rt.Cmp(sumN) < 0 {
+		return "bad-op"
+	}
+	if _, known := rn.shadow[p]; known {
+		return "known"
+	}
+	rn.sc.Set(func(s *settle.Script) { s.Retrieve, s.PutRetErr, s.Available = rt, false, huge })
+	rn.sc.TakeCalls()
+	rn.sc.Hold(true)
+	var mu sync.Mutex
+	var wg sync.WaitGroup
+	for j := range items {
+		it := items[j]
+		ready := make(chan struct{})
+		wg.Add(1)
+		go func() {
+			defer wg.Done()
+			it.gid = settle.GoroutineID()
+			close(ready)
+			var err error
+			switch it.kind {
+			case "c":
+				err = rn.acc.Credit(context.Background(), peer, it.amt)
+			case "r":
+				err = rn.acc.Reserve(peer, it.amt)
+			default:
+				err = rn.acc.NotifyPayment(peer, new(big.Int).SetUint64(it.amt))
+			}
+			mu.Lock()
+			it.done, it.err = true, err
+			mu.Unlock()
+		}()
+		<-ready
+	}
+	waiting := func() (allDone, quiet bool) { // quiet: nobody can move unless the held calls return
+		allDone, quiet = true, true
+		held := map[string]bool{}
+		for _, h := range rn.sc.Held() {
+			held[h.Tag] = true
+		}
+		for _, it := range items {
+			mu.Lock()
+			d := it.done
+			mu.Unlock()
+			if d {
+				continue
+			}
+			allDone = false
+			if held[it.gid] || settle.LockWait(it.gid, ".getAccountingPeer") {
+				continue
+			}
+			quiet = false
+		}
+		return
+	}
+	deadline := time.Now().Add(20 * time.Second)
+	stuck := false
+	for spin := 0; ; spin++ {
+		allDone, quiet := false, false
+		if spin > 20 || spin%5 == 0 {
+			allDone, quiet = waiting()
+		}
+		if allDone {
+			break
+		}
+		if quiet {
+			time.Sleep(200 * time.Microsecond)
+			if _, q2 := waiting(); q2 {
+				rn.sc.ReleaseHeld()
+			}
+			continue
+		}
+		if time.Now().After(deadline) {
+			stuck = true
+			break
+		}
+		if spin < 50 {
+			runtime.Gosched()
+		} else {
+			time.Sleep(100 * time.Microsecond)
+		}
+	}
+	rn.sc.Hold(false)
+	rn.sc.ReleaseHeld()
+	wg.Wait()
+	if stuck {
+		return "stuck"
+	}
+	pays, okd := rn.drainPays(peer)
+	if !okd {
+		return "timeout"
+	}
+	anyErr := false
+	for _, it := range items {
+		if it.err != nil {
+			anyErr = true
+		}
+	}
+	if rt == nil {
+		if !anyErr {
+			ctx.Fail("first-no-opening-balance", "RetrieveTraffic failed but an operation on the unknown peer %d succeeded", p)
+		}
+		return "err"
+	}
+	rn.contact(p, rt)
+	total := new(big.Int).Sub(new(big.Int).Add(rt, sumC), sumN)
+	rn.shadow[p] = total
+	rn.checkUnpaid(ctx, p, "first")
+	paid := "-"
+	if sumN.Sign() == 0 {
+		paid = "0"
+		if pays > 0 {
+			paid = "1"
+		}
+		reach := credits > 0 && total.Cmp(big.NewInt(threshold)) >= 0
+		if reach && pays == 0 {
+			ctx.Fail("first-pay-missing", "peer %d: concurrent first credits leave unpaid=%s >= threshold %d but no payment was requested", p, total, threshold)
+		}
+		if !reach && pays > 0 {
+			ctx.Fail("first-pay-spurious", "peer %d: unpaid=%s after concurrent first operations, threshold %d not reached by a credit, %d payment(s) requested", p, total, threshold, pays)
+		}
+	}
+	if pays > credits {
+		ctx.Fail("first-pay-duplicate", "peer %d: %d payment requests for %d credits", p, pays, credits)
+	}
+	if anyErr {
+		return "err"
+	}
+	v, okm := rn.measure(peer)
+	if !okm {
+		return "err"
+	}
+	return fmt.Sprintf("ok unpaid=%s paid=%s", v, paid)
+}
+
 func (rn *runner) Step(ctx *core.Ctx, op []string) string {
 	atoi := func(s string) (uint64, bool) {
 		v, err := strconv.ParseUint(s, 10, 64)
@@ -268,6 +489,8 @@ func (rn *runner) Step(ctx *core.Ctx, op []string) string {
 	p := int(p64)
 	peer := settle.Peer(p)
 	switch {
+	case len(op) >= 4 && op[0] == "first":
+		return rn.first(ctx, op, p, peer)
 	case len(op) == 5 && op[0] == "reserve":
 		amt, ok1 := atoi(op[2])
 		rt, ok2 := parseOI(op[3])
